@@ -157,7 +157,8 @@ func checkClean(c Case, d descriptor.Descriptor, delivered []byte, res *lib.Resu
 	}
 }
 
-func runScript(c Case, res *lib.Result) string {
+func runScript(c Case, res *lib.Result) (ret string) {
+	defer res.Recover(c)
 	d := descriptor.Descriptor{Size: c.Size, Digest: mkDigest(c.DigKind, c.Content, nil), MediaType: "application/octet-stream"}
 	sr := &scriptReader{cur: append([]Step(nil), c.Script...), orig: c.Script, seekable: c.Seekable}
 	var rd io.Reader = sr
@@ -264,6 +265,7 @@ func readAll(rd io.Reader, bufs []int) ([]byte, error) {
 }
 
 func runEnd(c Case, dir string, res *lib.Result) {
+	defer res.Recover(c)
 	ctx, cancel := context.WithTimeout(context.Background(), 8*time.Second)
 	defer cancel()
 	defer func() {
